@@ -15,7 +15,7 @@
    rows (x, y, z, 1) and translations sit in the last row.
    binary64 rounding is not modelled (the float behaviour is only tested). *)
 From Coq Require Import Reals List String Ascii Bool.
-From Desper Require Import Math.Sig Math.Spec Math.RInst Math.MathGen
+From Desper Require Import Math.Sig Math.Spec Math.RInst Math.MathGen Math.C18Model
   Math.ProofsVec Math.ProofsMat Math.ProofsInv Math.ProofsNorm Math.ProofsTrig
   Math.ProofsXform Math.Swizzle.
 Import ListNotations.
@@ -388,6 +388,36 @@ Print Assumptions C18_swizzle_error.
 Theorem C18_polar_satisfiable : polar atan2_ref.
 Proof. exact polar_satisfiable. Qed.
 Print Assumptions C18_polar_satisfiable.
+
+(* the evaluation used by the harness (Math/C18Model.v, over Q): a concrete
+   observation of the real classes is accepted and satisfies the textbook
+   reading; a wrong cross product, a wrong inverse and an over-long limit are
+   rejected by [holds_b] *)
+Example C18_evaluation_nonvacuous :
+  C18_verdict {| c_meth := "Vec3.cross";
+                 c_in := [q 1 1; q 2 1; q 3 1; q 4 1; q 5 1; q 6 1];
+                 c_out := [q (-3) 1; q 6 1; q (-3) 1]; c_warn := false |} = 13%nat /\
+  C18_verdict {| c_meth := "Mat4.__invert__";
+                 c_in := [q 2 1; q 0 1; q 0 1; q 0 1; q 0 1; q 1 1; q 0 1; q 0 1;
+                          q 0 1; q 0 1; q 1 1; q 0 1; q 1 1; q 2 1; q 3 1; q 1 1];
+                 c_out := [q 1 2; q 0 1; q 0 1; q 0 1; q 0 1; q 1 1; q 0 1; q 0 1;
+                           q 0 1; q 0 1; q 1 1; q 0 1; q (-1) 2; q (-2) 1; q (-3) 1; q 1 1];
+                 c_warn := false |} = 13%nat.
+Proof. vm_compute. auto. Qed.
+Example C18_wrong_results_rejected :
+  holds_b {| c_meth := "Vec3.cross";
+             c_in := [q 1 1; q 2 1; q 3 1; q 4 1; q 5 1; q 6 1];
+             c_out := [q (-3) 1; q (-6) 1; q (-3) 1]; c_warn := false |} = false /\
+  holds_b {| c_meth := "Mat4.__invert__";
+             c_in := [q 2 1; q 0 1; q 0 1; q 0 1; q 0 1; q 1 1; q 0 1; q 0 1;
+                      q 0 1; q 0 1; q 1 1; q 0 1; q 1 1; q 2 1; q 3 1; q 1 1];
+             c_out := [q 1 2; q 0 1; q 0 1; q 0 1; q 0 1; q 1 1; q 0 1; q 0 1;
+                       q 0 1; q 0 1; q 1 1; q 0 1; q 1 2; q (-2) 1; q (-3) 1; q 1 1];
+             c_warn := false |} = false /\
+  (* Vec3(2, 2, 2).limit(3) returned unchanged: length 3.46 > 3 (defect D16) *)
+  holds_b {| c_meth := "Vec3.limit"; c_in := [q 2 1; q 2 1; q 2 1; q 3 1];
+             c_out := [q 2 1; q 2 1; q 2 1]; c_warn := false |} = false.
+Proof. vm_compute. auto. Qed.
 
 (* non-vacuity / examples *)
 Example C18_swizzle_example :
